@@ -429,8 +429,16 @@ def query(
         statement = statement.strip()
         if statement:
             logger.debug("Parsing: " + statement)
-            var, val = parse(statement, namespace)
-            interpret(var, val, namespace, datastore)
+            try:
+                var, val = parse(statement, namespace)
+            except RecursionError:
+                raise QueryParseException("Query is nested too deeply") from None
+            try:
+                interpret(var, val, namespace, datastore)
+            except RecursionError:
+                raise QueryInterpretException(
+                    "Query is nested too deeply to be evaluated"
+                ) from None
 
     result = get_return(namespace)
     return result
